@@ -111,6 +111,68 @@ def safe_execute(prop, scenario):
     return out
 
 
+class _Slim(Outcome):
+    """An Outcome as it comes back from the child process that executed the scenario."""
+
+    def digest(self):
+        return self._digest
+
+
+_FIELDS = ('violations', 'trace', 'nontrivial', 'comparisons', 'faults', 'probes', 'deviation', 'sim_seconds', 'discarded')
+
+
+def isolated_execute(prop, scenario):
+    """safe_execute in a child forked for this one scenario: every run starts from the state the worker had after its
+    imports, so nothing a run leaves behind in the process (module-level caches, class attributes, mutable defaults of the
+    code under test) can reach the next run - history that matters is put inside a scenario instead."""
+    import pickle
+    import shutil
+    if os.environ.get('PIPESIM_ISOLATE', '1') == '0':
+        return safe_execute(prop, scenario)
+    r, w = os.pipe()
+    pid = os.fork()
+    if pid == 0:
+        code = 0
+        try:
+            os.close(r)
+            out = safe_execute(prop, scenario)
+            d = {k: getattr(out, k) for k in _FIELDS}
+            d['trace'] = jsonable(d['trace'])
+            d['harness_error'] = getattr(out, 'harness_error', None)
+            d['bad_offset'] = getattr(out, 'bad_offset', None)
+            d['_digest'] = out.digest()
+            d['_trace_digest'] = digest(out.trace)
+            with os.fdopen(w, 'wb') as f:
+                f.write(pickle.dumps(d, 4))
+        except BaseException:      # noqa
+            code = 3
+        finally:
+            try:
+                if env._WORKER_ROOT is not None and env._WORKER_ROOT[0] == os.getpid():
+                    shutil.rmtree(env._WORKER_ROOT[1], ignore_errors=True)
+            finally:
+                os._exit(code)
+    os.close(w)
+    with os.fdopen(r, 'rb') as f:
+        data = f.read()
+    _, status = os.waitpid(pid, 0)
+    out = _Slim()
+    if status != 0 or not data:
+        out.harness_error = 'the child process executing the scenario ended with status %r and %d bytes of result' % (status, len(data))
+        out._digest = None
+        return out
+    d = pickle.loads(data)
+    for k in _FIELDS:
+        setattr(out, k, d[k])
+    out._digest = d['_digest']
+    out._trace_digest = d['_trace_digest']
+    if d['harness_error']:
+        out.harness_error = d['harness_error']
+    if d['bad_offset'] is not None:
+        out.bad_offset = d['bad_offset']
+    return out
+
+
 # ---------------------------------------------------------------------------------------------
 # worker side
 
@@ -134,7 +196,7 @@ def _run_chunk(args):
             if len(agg['harness']) < 3:
                 agg['harness'].append({'index': idx, 'error': 'generate: ' + ''.join(traceback.format_exception(type(e), e, e.__traceback__))[-1200:]})
             continue
-        out = safe_execute(prop, scenario)
+        out = isolated_execute(prop, scenario)
         agg['done'] += 1
         he = getattr(out, 'harness_error', None)
         if he:
@@ -145,7 +207,7 @@ def _run_chunk(args):
             agg['discarded'][out.discarded] = agg['discarded'].get(out.discarded, 0) + 1
         if out.nontrivial:
             agg['nontrivial'] += 1
-            agg['traces'].add(digest(out.trace))
+            agg['traces'].add(getattr(out, '_trace_digest', None) or digest(out.trace))
         for name, src in (('comparisons', out.comparisons), ('faults', out.faults), ('probes', out.probes)):
             d = agg[name]
             for k, v in src.items():
@@ -231,7 +293,7 @@ def shrink(prop, scenario, sig, max_exec=200, max_wall=120, first_viol=None):
         if n_exec[0] >= max_exec or time.time() - t0 > max_wall:
             return False
         n_exec[0] += 1
-        out = safe_execute(prop, s)
+        out = isolated_execute(prop, s)
         ok = (not getattr(out, 'harness_error', None)) and _same_class(out, sig)
         if ok:
             last[0] = [v for v in out.violations if (v['clause'], v['key']) == sig][0]
@@ -322,7 +384,7 @@ def write_replay(prop, seed, index, scenario, viol, original_size, n_exec, out_d
 
 def replay(prop, path):
     body = json.load(open(path))
-    out = safe_execute(prop, body['scenario'])
+    out = isolated_execute(prop, body['scenario'])
     he = getattr(out, 'harness_error', None)
     if he:
         print('HARNESS-ERROR during replay:\n' + he)
@@ -384,7 +446,7 @@ def run_check(prop, tier, verif_seed):
     for sig, (item, v) in sorted(groups.items())[:6]:
         k = match_known(prop.ID, v, known)
         small, n_exec = shrink(prop, item['scenario'], sig, max_exec=b.get('shrink_exec', 200), max_wall=b.get('shrink_wall', 120), first_viol=v)
-        out = safe_execute(prop, small)
+        out = isolated_execute(prop, small)
         vv = [x for x in out.violations if (x['clause'], x['key']) == sig]
         v_final = vv[0] if vv else v
         path = write_replay(prop, verif_seed, item['index'], small if vv else item['scenario'], v_final,
